@@ -28,6 +28,7 @@ fn main() {
         "timing" => rt.block_on(timing_cmd(&mut rep, &args[2])),
         "crash" => rt.block_on(crash::crash_cmd(&mut rep, &args[2])),
         "race" => rt.block_on(race::race_cmd(&mut rep, &args[2])),
+        "lateack" => rt.block_on(sched::lateack_cmd(&mut rep, &args[2])),
         "midtx" => rt.block_on(sched::midtx_cmd(&mut rep, &args[2])),
         "sched" => rt.block_on(async {
             sched::sched_cmd(&mut rep, &args[2]).await;
